@@ -11,6 +11,8 @@ stateful downstream operators, the timing of `render_aggregate`'s loop).
                                follow, everything else is blank.  Before the repair this held only when
                                the first line never got shorter (the frame's first row was never erased).
 * `C16_screen_full` / `C16_screen_full_holds`   the blank `w × h` terminal instance.
+* `C16_table_frame_fits`       `C16_screen`'s hypothesis "at most `room` lines per frame" follows from C19
+                               (`C19_frame_shape`) for every table, multi-line cells included.
 * `C16_row_modes`              `-o logfmt` / `--format` on a terminal of any width (placeholder frames: since
                                96fd541 complete lines, since db52f75 cut to the terminal width): after any
                                number of refreshes only the final rows are on screen.
@@ -27,6 +29,7 @@ stateful downstream operators, the timing of `render_aggregate`'s loop).
                                leaves the table of ALL rows received on display (induction over the events).
 -/
 import AgModel.Term
+import AgProofs.Props.C19
 
 namespace Ag
 namespace C16
@@ -355,6 +358,22 @@ example : ∀ f ∈ [[['k', ' ', 'n'], ['-', '-', '-'], ['a', ' ', '1']]] ++ [[[
      first
       | (subst hl; exact ⟨by simp, by decide⟩)
       | (rcases hl with rfl | rfl | rfl <;> exact ⟨by simp, by decide⟩))
+
+/-! ### the frames of the table printer fit (from C19) -/
+
+/-- **C16_table_frame_fits.**  The hypothesis "the frame fits below the cursor" of `C16_screen` is a
+consequence of C19 for the frames the table printer produces, for EVERY table (cells may contain
+newlines: a row may take several lines, the printer clips the text by lines): on a terminal of
+height `h ≥ 2`, a frame is `frameText ls` for a non-empty `ls` of at most `h − 1` lines.  What
+remains an assumption of `C16_screen` is `LineOK` for each of these lines (at most `w` printable
+characters, one cell each: the emulator does not model wide or control characters; C19_width bounds
+the lines in display cells). -/
+theorem C16_table_frame_fits (env : Pretty.Env) (st st' : Pretty.St) (t : Table) (w h : Nat) (out : Str)
+    (hterm : env.term = some (w, h)) (h2 : 2 ≤ h) (hf : Pretty.formatAggregate env st t = .ok (out, st'))
+    : ∃ ls : List Str, out = frameText ls ∧ ls ≠ [] ∧ ls.length ≤ h - 1 ∧
+        ((∀ l ∈ ls, LineOK w l) → FrameOK w (h - 1) ls) := by
+  obtain ⟨ls, hout, hne, hlen, _⟩ := C19.C19_frame_shape env st st' t w h out hterm h2 hf
+  exact ⟨ls, hout, hne, hlen, fun hl => ⟨hne, hlen, hl⟩⟩
 
 /-! ### row-oriented output modes (`-o logfmt`, `--format`) on a terminal -/
 
